@@ -681,7 +681,7 @@ func (e *Enc) checkPost(fr *frame, st *bstate, rs []Val, ret *ssa.Return) {
 							break
 						}
 						switch in.(type) {
-						case *ssa.Call, *ssa.Store, *ssa.MapUpdate, *ssa.BinOp, *ssa.Defer, *ssa.Go:
+						case *ssa.Call, *ssa.Store, *ssa.MapUpdate, *ssa.BinOp, *ssa.Defer, *ssa.Go, *ssa.Lookup:
 							if in.Pos().IsValid() && strings.Contains(e.P.srcLine(in.Pos()), anchor) {
 								return true
 							}
